@@ -761,3 +761,59 @@ def twin_identity_decorator(tree, relpath):
 
 
 TWINS2.append(("identity-decorator-on-every-function", twin_identity_decorator))
+
+
+# ---------------------------------------------------------------------------------------------- positional arguments written as keywords
+def twin_keyword_arguments(tree, relpath):
+    """calls of the module's own plain functions and methods (`self.m(a, b)`, `f(a, b)`, `cls.m(a)`) pass their arguments by keyword (`self.m(x=a, y=b)`); only for callees
+    whose name is defined exactly once in the module, undecorated, without *args / positional-only parameters, and not a dunder"""
+    defs = {}
+    for n in ast.walk(tree):
+        if isinstance(n, ast.ClassDef):
+            for m in n.body:
+                if isinstance(m, ast.FunctionDef):
+                    defs.setdefault(m.name, []).append((m, True))
+    for st in tree.body:
+        if isinstance(st, ast.FunctionDef):
+            defs.setdefault(st.name, []).append((st, False))
+    # a name that is also defined as a nested function or assigned anywhere is left alone
+    nested = {n.name for f in ast.walk(tree) if isinstance(f, (ast.FunctionDef, ast.Lambda)) for n in ast.walk(f) if isinstance(n, ast.FunctionDef) and n is not f}
+    ok = {}
+    for name, lst in defs.items():
+        if len(lst) != 1 or name in nested or (name.startswith("__") and name.endswith("__")):
+            continue
+        fn, is_method = lst[0]
+        a = fn.args
+        if fn.decorator_list or a.vararg or a.posonlyargs or a.kwarg:
+            continue
+        params = [x.arg for x in a.args]
+        if is_method:
+            if not params:
+                continue
+            params = params[1:]
+        ok[name] = (params, is_method)
+    owner = {}
+    for n in ast.walk(tree):
+        if isinstance(n, ast.ClassDef):
+            own = {m.name for m in n.body if isinstance(m, ast.FunctionDef)}
+            for m in n.body:
+                for x in ast.walk(m):
+                    owner.setdefault(id(x), own)
+    for c in ast.walk(tree):
+        if not isinstance(c, ast.Call) or not c.args or any(isinstance(x, ast.Starred) for x in c.args) or any(k.arg is None for k in c.keywords):
+            continue
+        if isinstance(c.func, ast.Attribute) and isinstance(c.func.value, ast.Name) and c.func.value.id in ("self", "cls") and c.func.attr in ok and ok[c.func.attr][1] \
+                and c.func.attr in owner.get(id(c), ()):
+            params = ok[c.func.attr][0]
+        elif isinstance(c.func, ast.Name) and c.func.id in ok and not ok[c.func.id][1]:
+            params = ok[c.func.id][0]
+        else:
+            continue
+        if len(c.args) > len(params) or {k.arg for k in c.keywords} & set(params[:len(c.args)]):
+            continue
+        c.keywords = [ast.keyword(arg=p, value=v) for p, v in zip(params, c.args)] + c.keywords
+        c.args = []
+    return tree
+
+
+TWINS2.append(("own-functions-called-with-keyword-arguments", twin_keyword_arguments))
